@@ -132,6 +132,15 @@ pub fn run(ctx: &Ctx) -> i32 {
                 if dbg.status != r.status || program_output(&dbg.out()) != program_output(&r.out()) {
                     acc.violation(format!("C18/debug-differs-from-run/{}/{}", c.uses_ext, if on { "on" } else { "off" }), format!("`lace debug {} {:?} --command quit` exits {} but `lace run` exits {}", c.name, flag, dbg.status, r.status), case.clone());
                 }
+                // ... and after a `reset` before anything ran (the machine is put back from the
+                // debugger's saved copy: the flag must still decide)
+                let mut d: Vec<&str> = pre.to_vec();
+                d.extend(["debug", runfile.as_str(), "--minimal", "--command", "reset;reset;quit"]);
+                d.extend(flag);
+                let dbg = lace.run(&d, b"");
+                if dbg.status != r.status || program_output(&dbg.out()) != program_output(&r.out()) {
+                    acc.violation(format!("C18/debug-after-reset-differs-from-run/{}/{}", c.uses_ext, if on { "on" } else { "off" }), format!("`lace debug {} {:?} --command 'reset;reset;quit'` exits {} but `lace run` exits {}", c.name, flag, dbg.status, r.status), case.clone());
+                }
             }
         }
         for ext in ["asm", "lc3"] {
